@@ -30,8 +30,9 @@ def tname(v):
 
 class Scenario:
     def __init__(self, symbolic=(), wrapper=False, simp_func=True, n=2, scalar_at=None, foreign_at=None, foreign_kind="basis",
-                 cached=False):
+                 cached=False, empty_at=None):
         self.foreign_kind = foreign_kind
+        self.empty_at = empty_at      # this operand stores no blade at all: keys (), values []
         self.cached = cached          # is the key pattern already in the operator's cache? (`key in self`)
         self.symbolic, self.wrapper, self.simp_func, self.n = set(symbolic), wrapper, simp_func, n
         self.scalar_at, self.foreign_at = scalar_at, foreign_at
@@ -39,7 +40,8 @@ class Scenario:
     def label(self):
         return (f"n={self.n},symbolic={sorted(self.symbolic) or 'no'},wrapper={'set' if self.wrapper else 'None'},"
                 f"simp_func={'set' if self.simp_func else 'None'}" + (f",scalar@{self.scalar_at}" if self.scalar_at is not None else "")
-                + (f",foreign@{self.foreign_at}" if self.foreign_at is not None else ""))
+                + (f",foreign@{self.foreign_at}" if self.foreign_at is not None else "")
+                + (f",empty@{self.empty_at}" if self.empty_at is not None else ""))
 
 
 def run_entry(repo, qual: str, sc: Scenario):
@@ -102,6 +104,9 @@ def run_entry(repo, qual: str, sc: Scenario):
             operands.append(tok(f"NUMBER{i}"))
             continue
         a = foreign if sc.foreign_at == i else alg
+        if getattr(sc, "empty_at", None) == i:
+            operands.append(Obj("MultiVector", {"algebra": a, "_keys": (), "_values": [], "issymbolic": False}))
+            continue
         operands.append(Obj("MultiVector", {"algebra": a, "_keys": tok(f"KEYS{i}"), "_values": tok(f"VALUES{i}"),
                                             "issymbolic": i in sc.symbolic}))
     it = make_interp(repo)
@@ -117,8 +122,9 @@ def run_entry(repo, qual: str, sc: Scenario):
 
 
 def expected(sc: Scenario):
-    keys = tuple(f"KEYS{i}" if sc.scalar_at != i else (0,) for i in range(sc.n))
-    vals = tuple(f"VALUES{i}" if sc.scalar_at != i else None for i in range(sc.n))
+    empty = getattr(sc, "empty_at", None)
+    keys = tuple(() if empty == i else (f"KEYS{i}" if sc.scalar_at != i else (0,)) for i in range(sc.n))
+    vals = tuple([] if empty == i else (f"VALUES{i}" if sc.scalar_at != i else None) for i in range(sc.n))
     symbolic = bool(sc.symbolic)
     which = "direct" if (symbolic or not sc.wrapper) else "twin"
     filtered = symbolic and sc.simp_func
